@@ -34,8 +34,8 @@ LEVEL = "model_checking"
 DETERMINISM_REPLAY = False  # engines verify replay of prefixes themselves
 RULE = (
     "threads: main {enter A; spawn k workers; log; join; leave A} with worker kinds {raw thread, "
-    "preserve_context thread} x worker bodies from 7 small logging programs (messages, nested actions, "
-    "failing action, start_task), k = 2 (all ordered pairs of kind x body from a reduced set) and k = 3 "
+    "preserve_context thread} x worker bodies from 9 small logging programs (messages, nested actions, "
+    "failing action, start_task, re-entering the shared parent action's context()), k = 2 (all ordered pairs of kind x body from a reduced set) and k = 3 "
     "(selected); scheduling point before every logging call; ALL interleavings.  coroutines: parent in A "
     "creates k tasks (same bodies, await point before every op) and logs between awaits; ALL resolution "
     "orders of pending awaits.  states = schedule-tree nodes, transitions = scheduling decisions; "
@@ -56,6 +56,10 @@ BODIES = [
     [["t", [["m"]]]],
     [["a", 0, [["a", 0, [["m"]]]]]],
     [["a", 0, [["m"]]], ["m"]],
+    # 7, 8: re-enter the context of the worker's base action (for asyncio children: the parent's
+    # action, shared by all children) with action.context() / action.run()
+    [["c", [["m"]]], ["m"]],
+    [["a", 0, [["c", [["m"]]]]], ["m"]],
 ]
 
 
@@ -69,6 +73,7 @@ class Worker(object):
 
     def __init__(self, name, base, problems):
         self.name = name
+        self.base = base
         self.stack = [base] if base is not None else []
         self.problems = problems
         self.n = 0
@@ -108,6 +113,20 @@ class Worker(object):
                 self.refstack[-1].append(["m", lab])
                 log_message("w:msg", who=lab)
                 self.check("after-log")
+            elif st[0] == "c":
+                base = self.base
+                with base.context():
+                    self.stack.append(base)
+                    self.refstack.append(self.forest)
+                    self.check("after-enter-shared-context")
+                    try:
+                        self.run_sync(st[1], point)
+                        point()
+                        self.check("before-exit-shared-context")
+                    finally:
+                        self.stack.pop()
+                        self.refstack.pop()
+                self.check("after-exit-shared-context")
             elif st[0] in ("a", "t"):
                 lab = self.label()
                 node = ["a", lab, None, []]
@@ -144,6 +163,20 @@ class Worker(object):
                 self.refstack[-1].append(["m", lab])
                 log_message("w:msg", who=lab)
                 self.check("after-log")
+            elif st[0] == "c":
+                base = self.base
+                with base.context():
+                    self.stack.append(base)
+                    self.refstack.append(self.forest)
+                    self.check("after-enter-shared-context")
+                    try:
+                        await self.run_async(st[1], pause)
+                        await pause(self.name)
+                        self.check("before-exit-shared-context")
+                    finally:
+                        self.stack.pop()
+                        self.refstack.pop()
+                self.check("after-exit-shared-context")
             elif st[0] in ("a", "t"):
                 lab = self.label()
                 node = ["a", lab, None, []]
@@ -208,9 +241,10 @@ def aio_harnesses(tier):
         for b2 in small[i:]:
             out.append([b1, b2])
     out += [[1, 5]]
+    out += [[7, 7], [7, 1], [7, 0], [7, 2]]
     out += [[0, 1, 0]]
     if tier == "thorough":
-        out += [[5, 6], [6, 6], [5, 5], [0, 1, 2], [1, 1, 0], [1, 2, 4]]
+        out += [[8, 7], [8, 2], [8, 8], [5, 6], [6, 6], [5, 5], [0, 1, 2], [1, 1, 0], [1, 2, 4]]
     return out
 
 
